@@ -53,11 +53,7 @@ def handle (fn : String) : Handler := fun a _impl =>
     let model : R RnsPoly := do
       let l ← mkLevel .bfv n qs t
       let cdp ← (List.range qs.length).mapM fun j => MulOperand.new ((Q / t) % qs.getD j 1) (l.q j)
-      if sub then
-        -- multiply_sub_plain: same scaled value, subtracted
-        let zero := Array.replicate qs.length (Array.replicate n 0)
-        let added ← multiplyAddPlain l cdp.toArray (Q % t) ((t + 1) / 2) plain zero
-        rnsSub l dest added
+      if sub then multiplySubPlain l cdp.toArray (Q % t) ((t + 1) / 2) plain dest    -- same scaled value, subtracted
       else multiplyAddPlain l cdp.toArray (Q % t) ((t + 1) / 2) plain dest
     let spec := Drv.C10.fPoly (Array.ofFn (n := qs.length) fun j =>
       let q := qs.getD j.val 1
